@@ -39,7 +39,7 @@ func TestPrograms(t *testing.T) {
 		hex  string
 	}{
 		{"u8", []*Op{op(U8, 0)}, OutBytes, "18"},
-		{"u16 u24", []*Op{op(U16, 0), op(U24, 0)}, OutBytes, "0718" + "f7081a"},
+		{"u16 u24", []*Op{op(U16, 0), op(U24, 0)}, OutBytes, "0718" + "f70819"},
 		{"u32", []*Op{op(U32, 0)}, OutBytes, "e5f60718"},
 		{"u48 u64", []*Op{op(U48, 0), op(U64, 0)}, OutBytes, "c3d4e5f60718" + "a2b3c4d5e6f70819"},
 		// TLS presentation language (RFC 8446 3.4): opaque<0..2^16-1> = 2-byte length, then the bytes
